@@ -89,10 +89,10 @@ class UnitD(Unit):
                   ensures=[('fresh-abbreviation', 'forall|i: int| 0 <= i < existing_namespaces@.len() ==> (#[trigger] existing_namespaces@[i]).abbreviation@ != res@')],
                   origin={'fresh-abbreviation': 'property'},
                   loops={0: {'kind': 'loop', 'invariants': [('counter-below-255', 'append is Some ==> append->0 < 255')],
-                             'decreases': '255 - (if append is Some { append->0 as int } else { -1 })'}},
+                             'decreases': '255 - (if append is Some { append->0 as int } else { -1 })',
+                             'body_prefix': '        proof { assert(existing_namespaces@.as_ref().unref() =~= existing_namespaces@); }'}},
                   closures=[{'at': '|ns| ns.abbreviation == use_abbreviation', 'ensures': 'b == (ns.abbreviation@ == use_abbreviation@)'}],
-                  inserts=[{'at': 'return use_abbreviation;', 'where': 'before',
-                            'text': '            proof { assert(existing_namespaces@.as_ref().unref() =~= existing_namespaces@); }\n'}])
+                  )
         im = G.top(rel, 'impl', 'RustDocument')
         open_container(out, im, f)
         WF_PRE = [('table-well-formed', 'wf(*old(self))')]
@@ -109,9 +109,8 @@ class UnitD(Unit):
                            ('new-binding-points-to-uri', 'forall|k: String| lookup_of(*final(self)).contains_key(k) && !lookup_of(*old(self)).contains_key(k) ==> k@ == original_abbreviation@ && lookup_of(*final(self))[k].namespace@ == url@')],
                   origin={'keeps-table-injective': 'property', 'existing-bindings-unchanged': 'property', 'new-binding-points-to-uri': 'property'},
                   closures=cl_url,
-                  inserts=[{'at': 'self.namespaces.push(ns);', 'where': 'after', 'text': PUSH_HINT},
-                           {'at': 'let abbreviation = make_abbreviated_namespace', 'where': 'before', 'text': HINT('self.namespaces')},
-                           {'at': 'self.namespace_lookup\n                .insert(original_abbreviation.to_string(), existing.clone());', 'where': 'before', 'text': HINT('self.namespaces')}])
+                  inserts=[{'pos': 'body_start', 'text': HINT('self.namespaces')},
+                           {'pos': 'body_end', 'text': PUSH_HINT}])
         cl_ns = [{'at': '|ns| ns.namespace == namespace', 'ensures': 'b == (ns.namespace@ == namespace@)', 'all': True}]
         sw = child(im, 'fn', 'switch_to_target_namespace')
         sw_ins = []
@@ -125,11 +124,10 @@ class UnitD(Unit):
                 }
             }
 '''})
-        sw_ins.append({'at': 'if !self.target_namespaces.iter().any(', 'where': 'before', 'text': HINT('self.target_namespaces')})
+        sw_ins.append({'pos': 'body_start', 'text': HINT('self.target_namespaces') + HINT('self.namespaces')})
         sw_ins.append({'at': '.unwrap_or_else(||', 'where': 'after', 'inline': True,
                        'text': ' -> (r: Rc<Namespace>) ensures r.namespace@ == namespace@, r.rust_mod_name@ == "mod_"@ + r.abbreviation@, '
                                'forall|i: int| 0 <= i < self.namespaces@.len() ==> (#[trigger] self.namespaces@[i]).abbreviation@ != r.abbreviation@'})
-        sw_ins.append({'at': 'self.target_namespaces.push(tns.clone());', 'where': 'before', 'text': HINT('self.namespaces')})
         sw_ins.append({'at': 'self.current_target_namespace = Some(tns);', 'where': 'after', 'text': '''
             proof {
                 let old_ns = (*old(self)).namespaces@;
